@@ -90,7 +90,7 @@ func unknownID(ids []uint64, seed uint64) sharing.ID {
 // ---- 1. altered shares --------------------------------------------------------------------------
 
 func TestShareAlteration(t *testing.T) {
-	runRapid(t, "ShareAlteration", 800, func(s suite, rt *rapid.T, c *cfg) caseInfo { return s.shareCase(rt, c) })
+	runRapid(t, "ShareAlteration", 700, func(s suite, rt *rapid.T, c *cfg) caseInfo { return s.shareCase(rt, c) })
 }
 
 var shareKinds = []string{
@@ -277,7 +277,7 @@ func targetClass(ti, k int) string {
 // ---- 2. altered verification-vector entries --------------------------------------------------------
 
 func TestVectorEntryAlteration(t *testing.T) {
-	runRapid(t, "VectorEntryAlteration", 600, func(s suite, rt *rapid.T, c *cfg) caseInfo { return s.vectorCase(rt, c) })
+	runRapid(t, "VectorEntryAlteration", 450, func(s suite, rt *rapid.T, c *cfg) caseInfo { return s.vectorCase(rt, c) })
 }
 
 func (e *env[E, S]) vectorCase(t *rapid.T, c *cfg) caseInfo {
@@ -504,7 +504,7 @@ func (e *env[E, S]) lengthCase(t *rapid.T, c *cfg) caseInfo {
 // ---- 4. reconstruction, in the exponent, shards --------------------------------------------------------
 
 func TestReconstruction(t *testing.T) {
-	runRapid(t, "Reconstruction", 300, func(s suite, rt *rapid.T, c *cfg) caseInfo { return s.reconCase(rt, c) })
+	runRapid(t, "Reconstruction", 250, func(s suite, rt *rapid.T, c *cfg) caseInfo { return s.reconCase(rt, c) })
 }
 
 func (e *env[E, S]) reconCase(t *rapid.T, c *cfg) caseInfo {
